@@ -148,18 +148,32 @@ def match_reducer(elt: T):
                     defaults[k] = ast.literal_eval(dv)
                 except Exception:
                     defaults[k] = None
-        if "degrees" not in params or len(x.args[1]) > len(params):
+        if len(params) < 2 or len(x.args[1]) > len(params):
             return None
+        # the unit selector: the `degrees` flag, or a parameter that takes
+        # a member radians / degrees of a unit enumeration
+        sel = "degrees" if "degrees" in params else params[1]
         bound = dict(zip(params, x.args[1]))
         for k, v in x.args[2]:
             bound[k] = v
-        d = bound.get("degrees")
+        d = bound.get(sel)
+        while d is not None and d.op == "named":
+            d = d.args[1]
         if d is None:
-            if defaults.get("degrees") not in (True, False):
-                return None
-            deg = bool(defaults["degrees"])
-        elif tm.is_const(d):
+            dv = defaults.get(sel)
+            if dv in (True, False) and sel == "degrees":
+                deg = bool(dv)
+            else:
+                dn = fn.defaults().get(sel) if _PROG is not None else None
+                if isinstance(dn, ast.Attribute) and dn.attr in (
+                        "radians", "degrees"):
+                    deg = dn.attr == "degrees"
+                else:
+                    return None
+        elif tm.is_const(d) and sel == "degrees":
             deg = bool(d.args[1])
+        elif d.op == "enum" and d.args[1] in ("radians", "degrees"):
+            deg = d.args[1] == "degrees"
         else:
             return None
         if bound.get(params[0]) is not x.args[1][0]:
